@@ -82,3 +82,12 @@ Example C11_whole_pipeline_somewhere :
   Pipeline.pipeline_result 20 "Dev" (dev [ex_reg 8 None false [ex_field "a" BUint 0 5; ex_field "b" BUint 4 8]])
     = "error:field_overlap:Reg|a|b"%string.
 Proof. vm_compute. split; reflexivity. Qed.
+
+(* The ORDER of the passes that Pipeline.v sequences (and in which the first error wins), TRANSLATED from the two
+   `run_passes` functions of generation/src/{mir,lir}/passes/mod.rs on every build: the three layout passes run after enum_values_checked / refs_validated / reset_values_converted and before the address passes, so a definition with several defects is reported for the FIRST of them. *)
+From DD Require GenPassOrder.
+Theorem C11_pass_order_from_source :
+  DDGen.PassOrder.mir_pass_order = GenPassOrder.expected_mir_pass_order /\
+  DDGen.PassOrder.lir_pass_order = GenPassOrder.expected_lir_pass_order.
+Proof. exact GenPassOrder.pass_order_as_modelled. Qed.
+Print Assumptions C11_pass_order_from_source.
